@@ -118,12 +118,113 @@ class C19(ParserSessionProp):
             'equals the batch size.  Distinct = digest of (batch canonical form, format); non-trivial = the batch holds at '
             'least one failure placeholder and at least one parse.')
 
+    corpus_every = {'quick': 200, 'thorough': 150}
+
+    def corpus_run(self, index, tier):
+        e = self.corpus_every.get(tier, 0)
+        return bool(e) and index % e == e // 3
+
+    def generate_corpus(self, seed, index, tier, options):
+        rng = gen.stream(seed, 'C19:corpus', index)
+        variant = rng.choice(['en', 'en_rebank', 'ja'])
+        return {'prop': self.id, 'seed': seed, 'index': index, 'corpus': {
+            'variant': variant, 'order_seed': rng.getrandbits(30), 'slice': rng.choice([0, 0, 20, 500]),
+            'placeholders': rng.choice([0, 3, 40]), 'token_style': rng.choice(['plain', 'rich'])}}
+
+    def execute_corpus(self, spec):
+        """a corpus-sized document in one process: one derivation per shipped seen-rule pair (built from the grammar's own
+        results, > 1000 distinct categories, every binary label, unary steps from the shipped table) plus failure
+        placeholders, rendered in every CLI format as one document or in slices.  Capacity limits, memo tables and per-
+        process state inside the printers only show at this size."""
+        import random as _random
+        from depccg.cat import Category
+        from depccg.tree import Tree, ScoredTree
+        from depccg.types import Token
+        from depccg.printer import to_string
+        from depccg.lang import set_global_language_to, get_global_language
+        c = spec['corpus']
+        variant = c['variant']
+        lang = 'ja' if variant == 'ja' else 'en'
+        stats = new_stats()
+        binary, _ = grammars.real_grammar(lang)
+        pairs, _, _ = gen.seen_index(variant)
+        utab = grammars.unary_table(variant)
+        _, unary = grammars.real_grammar(lang, None, utab)
+        rng = _random.Random(c['order_seed'])
+
+        def tok(w):
+            if c['token_style'] == 'rich' and lang == 'en':
+                return Token(word=w, lemma=w, pos='NN', entity='O', chunk='I-NP')
+            return Token.of_word(w)
+        doc = []
+        cats = set()
+        for k, (x, y) in enumerate(pairs):
+            cx, cy = Category.parse(x), Category.parse(y)
+            try:
+                res = binary(cx, cy)
+            except Exception:
+                continue
+            for r in res[:2]:
+                left = Tree.make_terminal(tok(f'a{k}'), cx)
+                right = Tree.make_terminal(tok(f'b{k}'), cy)
+                t = Tree.make_binary(r.cat, left, right, r.op_string, r.op_symbol, r.head_is_left)
+                doc.append([ScoredTree(t, -1.0 - (k % 7))])
+                cats.update([str(cx), str(cy), str(r.cat)])
+        for src, targets in utab.items():
+            for ur in unary(src):
+                child = Tree.make_terminal(tok('u'), src)
+                t = Tree.make_unary(ur.cat, child, ur.op_string, ur.op_symbol)
+                doc.append([ScoredTree(t, -2.0)])
+        for _ in range(c['placeholders']):
+            doc.insert(rng.randrange(len(doc) + 1),
+                       [ScoredTree(Tree.make_terminal('FAILED', Category.parse('NP')), -float('inf'))])
+        rng.shuffle(doc)
+        bump(stats, 'corpus_runs')
+        stats['counters']['largest_document_sentences'] = len(doc)
+        stats['counters']['largest_document_distinct_categories'] = len(cats)
+        violations = []
+        saved = get_global_language()
+        set_global_language_to(lang)
+        try:
+            for fmt in cli_formats(lang):
+                bump(stats, 'evaluations')
+                add_set(stats, 'nontrivial', digest(('corpus', variant, fmt, c['slice'], c['placeholders'])))
+                step = c['slice'] or len(doc)
+                try:
+                    n_records = 0
+                    for start in range(0, len(doc), step):
+                        text = to_string(copy.deepcopy(doc[start:start + step]), fmt)
+                        if fmt not in LINE_FORMATS:
+                            n_records += count_records(text, fmt)
+                    if fmt not in LINE_FORMATS and n_records != len(doc):
+                        violations.append(Violation(
+                            property=self.id, oracle='one_record_per_sentence',
+                            message=f'{fmt}: {n_records} sentence records for a document of {len(doc)} sentences',
+                            signature={'format': fmt, 'lang': lang}))
+                except Exception as e:  # noqa
+                    violations.append(Violation(
+                        property=self.id, oracle='renders_without_error',
+                        message=(f'{lang} document of {len(doc)} sentences ({len(cats)} distinct categories, slices of {step}) '
+                                 f'cannot be rendered as {fmt}: {type(e).__name__}: {str(e)[:120]}'),
+                        signature={'format': fmt, 'lang': lang, 'exc': type(e).__name__, 'trigger': 'corpus'}))
+        finally:
+            set_global_language_to(saved)
+        stats['samples'].append({'corpus': c, 'sentences': len(doc), 'distinct_categories': len(cats)})
+        return {'violations': violations[:1], 'stats': stats, 'log_digest': digest((c, len(doc), [v['oracle'] for v in violations]))}
+
+    def execute(self, spec, executor_mode=None):
+        if 'corpus' in spec:
+            return self.execute_corpus(spec)
+        return super().execute(spec, executor_mode)
+
     def prepare(self):
         for v in ('en', 'en_rebank', 'ja'):
             label_index(v)
         cli_formats('en')
 
     def generate(self, seed, index, tier, options):
+        if self.corpus_run(index, tier):
+            return self.generate_corpus(seed, index, tier, options)
         rng = gen.stream(seed, 'C19:label', index)
         variant = rng.choice(['en', 'en_rebank', 'ja', 'ja'])
         idx = label_index(variant)
@@ -261,8 +362,15 @@ class C19(ParserSessionProp):
         return 'batch'
 
     def shrink_candidates(self, spec):
+        if 'corpus' in spec:
+            return
         for c in super().shrink_candidates(spec):
             yield c
+
+    def confirm(self, spec, violation):
+        if 'corpus' in spec:
+            return True, 'no pooled call'
+        return super().confirm(spec, violation)
 
     def evidence_extra(self, stats):
         out = {}
